@@ -115,36 +115,40 @@ def run(chk):
     names = {k: pe.get_global(f"{CLI}.library", k) for k in ("THEORY", "OPERATOR", "OUTPUT")}
     chk.decide(names == {"THEORY": "theory.yaml", "OPERATOR": "operator.yaml", "OUTPUT": "eko.tar"}, "run-argument-forms", f"{CLI}.library",
                f"default names {names}", instance="defaults")
-    for n in range(0, 5):
-        del cap[:]
-        paths = [FP(f"/d{i}/f{i}") for i in range(n)]
-        try:
-            pe.call(frun.qname, [paths])
-            raised = None
-        except PERaise as e:
-            raised = str(e)
-        if n in (0, 4):
-            chk.decide(raised is not None and "UsageError" in raised and not cap, "run-argument-forms", frun.qname,
-                       f"{n} arguments: expected a usage error, got {raised or cap}", where=frun.where, instance=f"n={n}", how="PE")
-            continue
-        if n == 1:
-            want = ("/d0/f0/theory.yaml", "/d0/f0/operator.yaml", "/d0/f0/eko.tar")
-        elif n == 2:
-            want = ("/d0/f0", "/d1/f1", "/d1/eko.tar")
-        else:
-            want = ("/d0/f0", "/d1/f1", "/d2/f2")
-        got = None
-        if raised is None and len(cap) == 1:
-            a, k = cap[0]
-            a = list(a)
-            tc = a[0] if a else k.get("theory")
-            oc = a[1] if len(a) > 1 else k.get("operator")
-            out = k.get("path", a[2] if len(a) > 2 else None)
-            got = (tc, oc, str(out))
-        wanted = (("TheoryCard", ("TEXT", want[0])), ("OperatorCard", ("TEXT", want[1])), want[2])
-        chk.decide(got == wanted, "run-argument-forms", frun.qname,
-                   f"{n} argument(s): the solver is called with {got} (calls: {len(cap)}, raised: {raised}); required: theory card from "
-                   f"{want[0]}, operator card from {want[1]}, output {want[2]}", where=frun.where, instance=f"n={n}", how="PE with symbolic paths")
+    # relative and absolute paths behave differently under `/` (an absolute right operand discards the left one): both are evaluated
+    for style, root in (("relative", ""), ("absolute", "/")):
+        for n in range(0, 5):
+            del cap[:]
+            paths = [FP(f"{root}d{i}/f{i}") for i in range(n)]
+            try:
+                pe.call(frun.qname, [paths])
+                raised = None
+            except PERaise as e:
+                raised = str(e)
+            inst = f"n={n},{style}"
+            if n in (0, 4):
+                chk.decide(raised is not None and "UsageError" in raised and not cap, "run-argument-forms", frun.qname,
+                           f"{n} arguments: expected a usage error, got {raised or cap}", where=frun.where, instance=inst, how="PE")
+                continue
+            if n == 1:
+                want = (f"{root}d0/f0/theory.yaml", f"{root}d0/f0/operator.yaml", f"{root}d0/f0/eko.tar")
+            elif n == 2:
+                want = (f"{root}d0/f0", f"{root}d1/f1", f"{root}d1/eko.tar")
+            else:
+                want = (f"{root}d0/f0", f"{root}d1/f1", f"{root}d2/f2")
+            got = None
+            if raised is None and len(cap) == 1:
+                a, k = cap[0]
+                a = list(a)
+                tc = a[0] if a else k.get("theory")
+                oc = a[1] if len(a) > 1 else k.get("operator")
+                out = k.get("path", a[2] if len(a) > 2 else None)
+                got = (tc, oc, str(out))
+            wanted = (("TheoryCard", ("TEXT", want[0])), ("OperatorCard", ("TEXT", want[1])), want[2])
+            chk.decide(got == wanted, "run-argument-forms", frun.qname,
+                       f"{n} {style} argument(s): the solver is called with {got} (calls: {len(cap)}, raised: {raised}); required: theory card "
+                       f"from {want[0]}, operator card from {want[1]}, output {want[2]} (an explicit output path is used as given)", where=frun.where,
+                       instance=inst, how="PE with symbolic paths")
     # nothing else of the command writes
     writes = [ast.unparse(c.func) for c in src.calls_in(frun) if isinstance(c.func, ast.Attribute) and c.func.attr in
               ("write_text", "write_bytes", "mkdir", "unlink", "dump", "safe_dump")]
